@@ -199,7 +199,7 @@ def main(argv=None):
             inconclusive.append("%s: solver unknown on '%s'" % (r["cfg"], u))
         candidates.extend(r["candidates"])
         samples.extend(r["samples"][:1])
-        if r["stats"]["paths_confirmed_sat"] == 0 and not r.get("vacuous_ok"):
+        if r["stats"]["paths_confirmed_sat"] == 0 and not r.get("vacuous_ok") and not r["inconclusive"]:
             unreached.append(r["cfg"])
     if unreached and not getattr(mod, "ALLOW_UNREACHED", False):
         # reachability twin failed: some configuration never reached an assertion with a
@@ -211,8 +211,13 @@ def main(argv=None):
     # ---- conformance pass (shim vs the real library on concrete inputs) ----
     conf_n = 0
     if hasattr(mod, "conformance"):
+        from vf.symx import Unsupported as _Unsup
         try:
             conf_n = mod.conformance()
+        except _Unsup as e:
+            # the current source uses a NumPy feature the shim lacks: not decidable
+            # here, never an alarm and not a harness failure either
+            inconclusive.append("conformance pass could not run: %s" % (e,))
         except Exception:
             traceback.print_exc()
             sys.stderr.write("HARNESS-ERROR conformance pass failed (shim/model disagrees with the real library)\n")
@@ -229,26 +234,36 @@ def main(argv=None):
         by_label = {}
         for c in candidates:
             by_label.setdefault(c["label"].split(" [")[0], []).append(c)
-        todo = []
-        for lab, cs in by_label.items():
-            todo.extend(cs[: getattr(mod, "REPLAYS_PER_LABEL", 4)])
+        per_label = getattr(mod, "REPLAYS_PER_LABEL", 6)
         sc = Scratch(build=getattr(mod, "NEEDS_BUILD", True))
         try:
             sdir = sc.path()
-            for c in todo:
-                r = replay_candidate(modname, c, sdir)
-                replayed += 1
-                if r.get("crashed"):
-                    sys.stderr.write("HARNESS-ERROR replay of candidate %r crashed: %s\n" % (c["label"], r.get("what")))
-                    return HARNESS_ERROR
-                if r.get("reproduced"):
-                    key = r.get("key") or c["label"]
-                    if key in known:
-                        known_hits.setdefault(key, r.get("what", ""))
+            for lab, cs in by_label.items():
+                # distinct configurations first (larger ones are more likely to manifest),
+                # stop at the first reproduction per distinct key
+                seen_cfg, first, rest = set(), [], []
+                for c in sorted(cs, key=lambda c: -len(repr(c.get("model")))):
+                    k = repr(c.get("cfg"))
+                    (rest if k in seen_cfg else first).append(c)
+                    seen_cfg.add(k)
+                got_keys = set()
+                for c in (first + rest)[:per_label]:
+                    r = replay_candidate(modname, c, sdir)
+                    replayed += 1
+                    if r.get("crashed"):
+                        sys.stderr.write("HARNESS-ERROR replay of candidate %r crashed: %s\n" % (c["label"], r.get("what")))
+                        return HARNESS_ERROR
+                    if r.get("reproduced"):
+                        key = r.get("key") or c["label"]
+                        if key in known:
+                            known_hits.setdefault(key, r.get("what", ""))
+                        else:
+                            violations.append((c, r))
+                        got_keys.add(key)
+                        if len(got_keys) >= 2:
+                            break
                     else:
-                        violations.append((c, r))
-                else:
-                    not_reproduced.append((c, r))
+                        not_reproduced.append((c, r))
         except RuntimeError as e:
             sys.stderr.write("HARNESS-ERROR %s\n" % e)
             return HARNESS_ERROR
